@@ -26,6 +26,7 @@ inductive Outcome where
   | ok
   | valueError
   | keyError     -- only from `Device.edit`: the device holds no such schedule
+  | indexError   -- only on a day shorter than the addressed range (never a decoded, 48-slot day)
 deriving DecidableEq, Repr
 
 /-- `get_args(ScheduleState)` -/
@@ -50,12 +51,16 @@ def timeRange (s e : TimeArg) : Option (Nat × Nat) :=
 def fillRange (day : List Bool) (lo n : Nat) (v : Bool) : List Bool :=
   (List.range' lo n).foldl (fun d i => d.set i v) day
 
-/-- `set_state(state, start, end)`: the day afterwards and whether ValueError was raised.
-The state is validated first, the time range is computed before the first slot is written. -/
+/-- `set_state(state, start, end)`: the day afterwards and what was raised.
+The state is validated first, the time range is computed before the first slot is written.
+The slots are then written one by one: on a day with fewer than `hi + 1` slots the list
+assignment raises IndexError at the first missing slot, AFTER the slots `lo .. len-1` have been
+written (`List.set` past the end is a no-op, so `fillRange` is exactly that partial edit). -/
 def setState (day : List Bool) (state : String) (s e : TimeArg) : List Bool × Outcome :=
   if validStates.contains state then
     match timeRange s e with
-    | some (lo, hi) => (fillRange day lo (hi + 1 - lo) (onStates.contains state), .ok)
+    | some (lo, hi) =>
+      (fillRange day lo (hi + 1 - lo) (onStates.contains state), if hi < day.length then .ok else .indexError)
     | none => (day, .valueError)
   else (day, .valueError)
 
@@ -219,6 +224,88 @@ def Device.commit (dev : Device) (idx : Nat) : Option (List Byte) :=
   | some w, some sw, some p =>
     some ([1, idx.toUInt8, sw.toUInt8, p.toUInt8] ++ encodeWeek w.toTable)
   | _, _, _ => none
+
+/-! ### the write queue: requests hold the live `Schedule` object (finding F6)
+
+`collect_schedule_data` captures the switch and parameter VALUES (ints, since fix 951eb7c) but a
+REFERENCE to the `Schedule` object; `Frame.message` is built at its first access, i.e. when the
+producer serialises the queued frame.  Every response replaces the device's `Schedule` objects
+by new ones, so a request queued before it keeps the old object, which nothing edits any more
+(edits go through `device.data["schedules"]`): it is frozen at its content of that moment. -/
+
+def Week.empty : Week := ⟨[], [], [], [], [], [], []⟩
+
+structure Req where
+  idx : Nat
+  switch : Nat
+  param : Nat
+  frozen : Option Week   -- none: still the object the device holds
+deriving Repr
+
+structure Sys where
+  dev : Device
+  queue : List Req
+deriving Repr
+
+/-- the week a queued request would encode if serialised now -/
+def Req.week (dev : Device) (r : Req) : Week :=
+  match r.frozen with
+  | some w => w
+  | none => (dictGet dev.schedules r.idx).getD Week.empty
+
+def Req.payload (dev : Device) (r : Req) : List Byte :=
+  [1, r.idx.toUInt8, r.switch.toUInt8, r.param.toUInt8] ++ encodeWeek (r.week dev).toTable
+
+def Req.freeze (dev : Device) (r : Req) : Req := { r with frozen := some (r.week dev) }
+
+inductive Ev where
+  | receive (msg : List Byte)   -- handle_frame(SchedulesResponse) + dispatch
+  | edit (e : Edit)             -- set_state through device.data["schedules"]
+  | commit (idx : Nat)          -- Schedule.commit()
+  | drain                       -- the producer takes the next frame and serialises it
+deriving Repr
+
+inductive Out where
+  | received
+  | decodeError
+  | edited (o : Outcome)
+  | queued
+  | keyError
+  | tx (payload : List Byte)
+  | idle
+deriving DecidableEq, Repr
+
+def knownIndexes (es : List Entry) : Bool := es.all (fun e => e.idx < schedulesCount)
+
+def Sys.step (s : Sys) : Ev → Sys × Out
+  | .receive msg =>
+    match decodeResponse msg, s.dev.receive msg with
+    | some es, some dev' =>
+      if knownIndexes es then (⟨dev', s.queue.map (Req.freeze s.dev)⟩, .received)
+      else (s, .received)
+    | _, _ => (s, .decodeError)
+  | .edit e => let r := s.dev.edit e; (⟨r.1, s.queue⟩, .edited r.2)
+  | .commit idx =>
+    match dictGet s.dev.schedules idx, dictGet s.dev.switches idx, dictGet s.dev.params idx with
+    | some _, some sw, some p => (⟨s.dev, s.queue ++ [⟨idx, sw, p, none⟩]⟩, .queued)
+    | _, _, _ => (s, .keyError)
+  | .drain =>
+    match s.queue with
+    | [] => (s, .idle)
+    | r :: q => (⟨s.dev, q⟩, .tx (r.payload s.dev))
+
+def Sys.run : Sys → List Ev → Sys × List Out
+  | s, [] => (s, [])
+  | s, ev :: evs =>
+    let r := s.step ev
+    let rest := Sys.run r.1 evs
+    (rest.1, r.2 :: rest.2)
+
+/-- events after which a request queued for schedule `idx` still encodes the same week -/
+def Ev.harmlessFor (idx : Nat) : Ev → Bool
+  | .receive _ => true
+  | .edit e => e.idx != idx
+  | _ => false
 
 def Device.applyEdits (dev : Device) (edits : List Edit) : Device :=
   edits.foldl (fun d ed => (d.edit ed).1) dev
